@@ -70,6 +70,33 @@ theorem converter_called_once_each (syms : List Symbol) (s : Symbol) :
         simp [hs, this]
       · simp [hs]
 
+/-- The statements above hold for ARBITRARY symbol lists (hand-assembled, permuted, concatenated from several
+    `parse_model` calls, verbatim symbols anywhere): concatenating lists concatenates their code blocks … -/
+theorem selected_append (a b : List Symbol) : selected (a ++ b) = selected a ++ selected b := by
+  simp [selected, List.filter_append]
+
+/-- … and two code-carrying symbols keep their relative position whatever their types: nothing is regrouped
+    (in particular a VERBATIM block listed before an equation stays before it). -/
+theorem selected_keeps_relative_order (l1 l2 l3 : List Symbol) (s1 s2 : Symbol)
+    (h1 : carriesCode s1 = true) (h2 : carriesCode s2 = true) :
+    selected (l1 ++ s1 :: l2 ++ s2 :: l3) = selected l1 ++ s1 :: selected l2 ++ s2 :: selected l3 := by
+  simp [selected, List.filter_append, List.filter_cons, h1, h2]
+
+/-- Non-vacuity: a verbatim symbol listed BEFORE an equation (not what one `parse_model` call returns) comes first in
+    the body, and again after it when it is listed again. -/
+example : renderBody (fun s => s.code.getD "")
+      [⟨none, .verbatim, .none, .none, some "```\nself._X[t] = self._X[t] * 2.0\n```", some "self._X[t] = self._X[t] * 2.0"⟩,
+       ⟨some "Y", .endogenous, .int 0, .int 0, some "Y[t] = X[t]", some "self._Y[t] = self._X[t]"⟩,
+       ⟨some "X", .exogenous, .int 0, .int 0, none, none⟩,
+       ⟨none, .verbatim, .none, .none, some "`pass`", some "pass"⟩,
+       ⟨some "Z", .endogenous, .int 0, .int 0, some "Z[t] = Y[t]", some "self._Z[t] = self._Y[t]"⟩]
+    = "        self._X[t] = self._X[t] * 2.0\n\n        self._Y[t] = self._X[t]\n\n        pass\n\n        self._Z[t] = self._Y[t]" := by
+  rfl
+
+example : (selected
+      [⟨none, .verbatim, .none, .none, some "`v`", some "v"⟩,
+       ⟨some "Y", .endogenous, .int 0, .int 0, some "e", some "c"⟩]).map (·.type) = [.verbatim, .endogenous] := by rfl
+
 /-- Symbols without an equation (or without code) contribute variables but no code. -/
 theorem no_equation_no_code (syms : List Symbol) (s : Symbol) (h : s.equation = none ∨ s.code = none) :
     s ∉ selected syms := by
